@@ -5,6 +5,11 @@ From CB Require Import Gen Machine MachineFacts.
 Import ListNotations.
 Open Scope Z_scope.
 
+(* publication order is observed through the records: the examples and the monotonicity theorems are
+   about the instance that publishes the pairwise different records [rec_of]; the freshness theorems
+   (sections General) hold for every record function *)
+#[local] Existing Instance std_rec.
+
 (* the cached record changes only when a re-load returns the tracked generation; every other
    step of every call leaves the cache and its generation alone (whatever the writer does) *)
 Theorem C03_cache_changes_only_on_accept : forall c L r ch r' it ret,
@@ -77,6 +82,9 @@ Proof. exact idx_of_rec. Qed.
 From CB Require Import SeqlockFresh.
 Open Scope Z_scope.
 
+Section General.
+Context {RF : RecFun}.
+
 Theorem C03_fresh_when_idle : forall c ts m o j r q e, safe_cfg c = true -> (0 < c_retries c)%N ->
   Forall real_token ts -> m_run (m_init c) ts = (m, o) ->
   nth_error (m_rs m) j = Some r -> r_pc r = RIdle ->
@@ -84,7 +92,7 @@ Theorem C03_fresh_when_idle : forall c ts m o j r q e, safe_cfg c = true -> (0 <
   exists k m' pre ret r', (k <= c_cells c + 4)%nat /\
     m_run m (repeat (TR j None) k) = (m', pre ++ [ORet j ret (r_cache r')]) /\ Forall is_access pre /\
     nth_error (m_rs m') j = Some r' /\ r_pc r' = RIdle /\ m_w m' = m_w m /\
-    ((ret = RetFresh /\ r_cache r' = rec_of (c_cells c) (e_att e) /\ r_cache_gen r' = e_val e) \/
+    ((ret = RetFresh /\ r_cache r' = recf (c_cells c) (e_att e) /\ r_cache_gen r' = e_val e) \/
      (ret = RetCache /\ r_cache r' = r_cache r /\ e_val e = r_cache_gen r)).
 Proof. exact fresh_machine. Qed.
 
@@ -95,13 +103,15 @@ Proof. exact latest_even_is_newest. Qed.
 
 Theorem C03_idle_segment_holds_latest_record : forall n L q e, LogInv n L -> LogInv2 L ->
   latest LGen L = Some q -> ev L q = Some e -> e_kind e = KEven ->
-  forall i, (i < n)%nat -> latest_val (LCell i) L = nth i (rec_of n (e_att e)) 0.
+  forall i, (i < n)%nat -> latest_val (LCell i) L = nth i (recf n (e_att e)) 0.
 Proof. exact quiescent_cells. Qed.
 
 (* the invariants used above hold in every reachable state, without any bound on publications *)
 Theorem C03_reachable_invariant_unbounded : forall c ts m o, safe_cfg c = true -> Forall real_token ts ->
   m_run (m_init c) ts = (m, o) -> MInvF c m.
 Proof. intros c ts m o Hs Hts R. exact (m_run_F c Hs ts (m_init c) m o (MInvF_init c) Hts R). Qed.
+
+End General.
 
 (* the documented exception is real: a reader that holds publication 1 (generation 2) and sleeps
    until the live generation is 2 again is served its cache although publication 3 is current *)
@@ -138,6 +148,9 @@ Proof.
   pose proof (C03_monotone_RA_window c ts m o Hs Hts R Hw) as S. rewrite E in S. eapply sorted_pairs; eauto.
 Qed.
 
+Section GeneralExact.
+Context {RF : RecFun}.
+
 (* the call returns the newest completed publication - freshly read, or from the cache when the
    cache already holds it - unless the cached record was accepted from an even store that lies a
    positive multiple of 32767 publications before the newest one (the documented exception) *)
@@ -148,8 +161,10 @@ Theorem C03_fresh_exact : forall c ts m o j r q e, safe_cfg c = true -> (0 < c_r
   exists k m' pre ret r', (k <= c_cells c + 4)%nat /\
     m_run m (repeat (TR j None) k) = (m', pre ++ [ORet j ret (r_cache r')]) /\ Forall is_access pre /\
     nth_error (m_rs m') j = Some r' /\ r_pc r' = RIdle /\ m_w m' = m_w m /\
-    (r_cache r' = rec_of (c_cells c) (e_att e) \/
+    (r_cache r' = recf (c_cells c) (e_att e) \/
      (ret = RetCache /\ r_cache r' = r_cache r /\
-      exists q' e' d, ev (w_log (m_w m)) q' = Some e' /\ e_kind e' = KEven /\ r_cache r = rec_of (c_cells c) (e_att e') /\
+      exists q' e' d, ev (w_log (m_w m)) q' = Some e' /\ e_kind e' = KEven /\ r_cache r = recf (c_cells c) (e_att e') /\
         0 < d /\ Z.of_nat (evens_upto (w_log (m_w m)) q) = Z.of_nat (evens_upto (w_log (m_w m)) q') + 32767 * d)).
 Proof. exact fresh_machine_exact. Qed.
+
+End GeneralExact.
